@@ -1,0 +1,9 @@
+//go:build !verif
+
+package task
+
+// Verification hooks; no-ops unless built with the "verif" tag.
+
+func verifNewInvocation(_ *BackgroundTaskManager) int64 { return 0 }
+
+func verifTrace(_ *BackgroundTaskManager, _ string, _, _ int64) {}
